@@ -94,6 +94,10 @@ def fault_case(c):
     elif cl == "wrongkind":
         vals[pos - 1] = LIT[lit]
         txt = "%s(%s)" % (ent, ",".join(vals))
+    elif cl == "unknown_kw" and k == "complex":
+        parts = ["CBASE(1)", "CPA(2,.RED.)", "CPB('x')"]
+        parts[pos - 1] = "CPX" + parts[pos - 1][parts[pos - 1].index("("):]
+        txt = "(" + "".join(parts) + ")"
     elif cl == "unknown_kw":
         txt = "NOSUCH(1)"
     elif cl == "abstract_kw":
